@@ -1,4 +1,4 @@
-import GoSSE.Proofs.JoeStep
+import GoSSE.Proofs.JoeResult
 /-!
 # C06 — the provider never crashes and never touches a subscriber after Subscribe returned
 
@@ -160,5 +160,28 @@ theorem untouched_after_return {c : Cfg} {s s' : St} (h : Reachable c s) (i : Su
   | shutSeeClosed k => simp only [step] at hs; split at hs <;> simp at hs; subst hs; simp [setShut, hr]
   | shutCtx k => simp only [step] at hs; split at hs <;> simp at hs; subst hs; simp [setShut, hr]
   | shutCancel k => simp only [step] at hs; split at hs <;> simp at hs; subst hs; simp [setShut, hr]
+
+/-- **What Subscribe can return.** In every reachable state a returned Subscribe call returned one of:
+nil — and then its context was cancelled or the provider was shut down; its own Send/Flush error; the
+error Replay returned for it; ErrProviderClosed. Never another subscriber's error. -/
+theorem subscribe_result {c : Cfg} {s : St} (h : Reachable c s) (i : SubId) (r : Option Err)
+    (hr : (s.subs i).pc = .returned r) :
+    (r = none ∧ ((s.subs i).ctxCancelled = true ∨ s.doneClosed = true)) ∨
+    r = some (.own i) ∨ r = some (.replay i) ∨ r = some .closed := by
+  rcases (reachable_jinv h).result i r hr with ⟨h1, h2⟩ | h' | h' | h'
+  · left; simp only [Bool.or_eq_true] at h2; exact ⟨h1, h2⟩
+  · exact Or.inr (Or.inl h')
+  · exact Or.inr (Or.inr (Or.inl h'))
+  · exact Or.inr (Or.inr (Or.inr h'))
+
+/-- **The own error is returned if one occurred**: when one of the subscription's own live Send/Flush
+calls failed, the Subscribe call — once it returns — returns that error, unless its context was also
+cancelled (then the two race and nil is possible; see DESIGN.md §7 "readings"). -/
+theorem own_error_is_returned {c : Cfg} {s : St} (h : Reachable c s) (i : SubId) (r : Option Err)
+    (hf : failedLive (s.subs i) = true) (hr : (s.subs i).pc = .returned r) :
+    r = some (.own i) ∨ (s.subs i).ctxCancelled = true := by
+  rcases (reachable_jinv h).ownErr i hf with ⟨_, hb⟩ | ⟨r', hr', hx⟩
+  · exact Or.inr (hb r hr)
+  · rw [hr] at hr'; simp only [SubPc.returned.injEq] at hr'; subst hr'; exact hx
 
 end GoSSE.Props.C06
